@@ -212,7 +212,7 @@ def gen_pairs(rng, model, vocab, t, x_fields, for_kw=False):
             cand = [(u, i) for u in [t] + longer[:4] for i in range(u.nseg) if vocab.info[u.name][i]["open"]]
             if cand:
                 u, i = rng.choice(cand)
-                k, v = u.keys[i], "ns:" + rng.choice(gen.SAFE_NAME_POOL)
+                k, v = u.keys[i], rng.choice(["ns:", "oph~", "a~b~"]) + rng.choice(gen.SAFE_NAME_POOL)
         if for_kw:
             if rng.random() < 0.2:
                 v = None
